@@ -206,6 +206,8 @@ def generate(seed: int, tier: str) -> Dict[str, Any]:
             (["t2", "quality"], qa, dict(qa, lexical={"enabled": True, "bm25_k1": 0.1, "bm25_b": 0.0})),
             (["t2", "quality"], qa, dict(qa, mmr={"enabled": True, "lambda": 0.1, "k": 2})),
             (["t2", "hybrid"], {"enabled": False}, {"enabled": True, "edge_threshold": 0.0, "lambda_graph": 0.9}),
+            (["perf", "t2", "precompute_norms"], False, True),
+            (["perf", "t2", "embed_store_dtype"], "fp32", "fp16"),
             (["perf", "t2", "reader", "partitions"], {"enabled": True, "layout": "none", "path": "./t2store"}, {"enabled": True, "layout": "none", "path": "./t2store_b"}),
             (["t2", "ranking"], {"alpha_sim": 1.0, "beta_recency": 0.0, "gamma_importance": 0.0}, {"alpha_sim": 0.0, "beta_recency": 0.0, "gamma_importance": 1.0}),
             (["t1", "edge_type_mult"], {"supports": 1.0, "associates": 0.6, "contradicts": 0.8}, {"supports": 0.1, "associates": 0.1, "contradicts": 0.1}),
@@ -216,6 +218,8 @@ def generate(seed: int, tier: str) -> Dict[str, Any]:
         if knob[0] == "perf":
             raw.setdefault("perf", {})["enabled"] = True
             raw["t2"]["owner_scope"] = "any"
+            if knob[-1] in ("precompute_norms", "embed_store_dtype"):
+                raw["perf"]["metrics"] = {"report_memory": True}   # the gate under which T2 reports these two settings
         if r.chance(0.5):
             raw.setdefault("t4", {})["enabled"] = False
         ops = []
